@@ -2,6 +2,7 @@
    the model's names (`exportModelFrom`, Model/C08Compartment.lean): the species references then avoid the compartment ids too -/
 import MxlVerif.Lemmas.C08Roundtrip
 import MxlVerif.Model.C08Compartment
+import MxlVerif.Lemmas.C08Compartment
 namespace Mxl.C08
 open Gen
 
@@ -178,5 +179,40 @@ theorem exported_species_keyFrom {m : PyModel} {d : SDoc} {t0 : List String} (hw
   intro n hn
   rw [hds]
   simpa [initEntry, Function.comp_def] using hn
+
+/-! ### on a well-named model the declared ids are the names: `escArgs` is the identity -/
+
+theorem idOf_plain {m : PyModel} (hp : ∀ n ∈ m.names, isPlainName n = true) (n : String) : idOf m n = n := by
+  have mem : ∀ {l : List String}, l.contains n = true → n ∈ l := by intro l h; simpa using h
+  unfold idOf
+  by_cases h1 : (m.params.map (·.1)).contains n = true
+  · have hn : isPlainName n = true := hp n (by unfold PyModel.names; simp only [List.mem_append]; exact .inl (.inl (.inl (mem h1))))
+    simp [h1, escapeId_plain _ hn]
+    split <;> rfl
+  · by_cases h2 : (m.vars.map (·.1)).contains n = true
+    · have hn : isPlainName n = true := hp n (by unfold PyModel.names; simp only [List.mem_append]; exact .inl (.inl (.inr (mem h2))))
+      simp [h1, h2, escapeId_plain _ hn]
+      split <;> rfl
+    · by_cases h3 : (m.derived.map (·.1)).contains n = true
+      · have hn : isPlainName n = true := hp n (by unfold PyModel.names; simp only [List.mem_append]; exact .inl (.inr (mem h3)))
+        simp [h1, h2, h3, escapeId_plain _ hn]
+        split <;> rfl
+      · by_cases h4 : (m.rxns.map (·.name)).contains n = true
+        · have hn : isPlainName n = true := hp n (by unfold PyModel.names; simp only [List.mem_append]; exact .inr (mem h4))
+          simp [h1, h2, h3, h4, escapeId_plain _ hn]
+          split <;> rfl
+        · rw [if_neg h1, if_neg h2, if_neg h3, if_neg h4]
+
+theorem escArgs_of_wellNamed {m : PyModel} (hw : wellNamed m = true) : m.escArgs = m := by
+  have hw' := hw
+  simp only [wellNamed, Bool.and_eq_true, List.all_eq_true] at hw'
+  obtain ⟨⟨⟨⟨⟨⟨hplain, _⟩, _⟩, _⟩, _⟩, _⟩, _⟩ := hw'
+  have hid : idOf m = fun n => n := funext (idOf_plain hplain)
+  unfold PyModel.escArgs
+  split
+  · cases m with
+    | mk ps vs ds rs =>
+      simp [hid, PyInit.mapArgs_id, PyFn.mapArgs_id, PyCoef.mapArgs_id]
+  · rfl
 
 end Mxl.C08
